@@ -568,6 +568,12 @@ def traceCompile (isVar : Nat → Bool) (allowConstants : Bool) (trace : List TE
     let ids2 := tInputs kwargs ids1
     match tOps dag ids2 [] with
     | .error e => .error e
-    | .ok (_, ops) => .ok ⟨cs, kwargs.map (·.1), ops⟩
+    | .ok (ids3, ops) =>
+      -- `if ids[id(root)] != len(ids) - 1: raise NotImplementedError` (an OpProgram returns its last slot)
+      match dGet ids3 root with
+      | none => .error (.keyId root)
+      | some i =>
+        if i + 1 ≠ ids3.length then .error (.notImplemented (.fn (.const root)))
+        else .ok ⟨cs, kwargs.map (·.1), ops⟩
 
 end FV.C18
